@@ -101,14 +101,15 @@ class CheckComparisons(MultiFunction):
     def power(self, o, base, exponent):
         """Apply to power."""
         o = self.reuse_if_untouched(o, base, exponent)
-        try:
-            # Attempt to diagnose circumstances in which the result must be real.
-            exponent = float(exponent)
-            if self.nodetype[base] == "real" and int(exponent) == exponent:
+        # Attempt to diagnose circumstances in which the result must be real:
+        # a real base raised to a literal integer power. Only literals are
+        # converted; float() of a symbolic exponent goes through point
+        # evaluation, which does not terminate for unmapped scalar terminals.
+        if isinstance(exponent, RealValue | Zero):
+            value = float(exponent)
+            if self.nodetype[base] == "real" and int(value) == value:
                 self.nodetype[o] = "real"
                 return o
-        except TypeError:
-            pass
 
         self.nodetype[o] = "complex"
         return o
